@@ -89,6 +89,14 @@ def run_all(only, results):
                 c = sh("python3 tools/check.py %s --tier quick" % p, cwd=ROOT)
                 v = [l for l in c.stdout.split("\n") if l.startswith("VIOLATION")]
                 out[p] = ("CAUGHT " + ("without input" if v[0].endswith("no-failing-input-found") else "with replay")) if v else "MISSED (exit %d)" % c.returncode
+            # a change whose effect lies in another property's statement (meta "caught_by"): that check is run when the own one is silent
+            if any(v.startswith("MISSED") for v in out.values()):
+                for p in meta.get("caught_by", []):
+                    c = sh("python3 tools/check.py %s --tier quick" % p, cwd=ROOT)
+                    v = [l for l in c.stdout.split("\n") if l.startswith("VIOLATION")]
+                    if v:
+                        out = {"%s (by the check of %s)" % ("+".join(props), p): "CAUGHT " + ("without input" if v[0].endswith("no-failing-input-found") else "with replay")}
+                        break
             results[name] = out
         finally:
             sh("git -C %s checkout HEAD -- ." % REPO)
